@@ -13,6 +13,7 @@ import (
 
 	"github.com/failsafe-go/failsafe-go"
 	"github.com/failsafe-go/failsafe-go/bulkhead"
+	"github.com/failsafe-go/failsafe-go/hedgepolicy"
 	"github.com/failsafe-go/failsafe-go/fallback"
 	"github.com/failsafe-go/failsafe-go/retrypolicy"
 	"github.com/failsafe-go/failsafe-go/timeout"
@@ -250,5 +251,64 @@ func TestDrive_C06(t *testing.T) {
 			w.Stat("balance_probe")
 		}
 	}
-	w.Close("schedules of 8-52 atomic steps over 1-10 executions (plain, under Fallback/Timeout/Retry, async) and standalone callers sharing one bulkhead (maxConcurrency 0-4, max wait 0 / 1ns / 5ms / 1min) in a virtual-time bubble: an execution reaches the bulkhead, an admitted execution's function finishes (success or failure), an execution's context is cancelled (while waiting or while holding), the clock advances (1ns, wait-1, wait, wait+1, random), standalone TryAcquirePermit / ReleasePermit. After every step the status of every execution (idle / waiting / holding / released / refused with ErrFull / cancelled with the context error); at the end the number of free permits is probed. Non-trivial = some execution held a permit and some execution waited; distinct by (configuration, schedule).", nil)
+	// balance probes through compositions in which several attempts of one execution hold permits at once (a hedge policy
+	// around the bulkhead), a bulkhead sits around another bulkhead that is full, or the function itself returns ErrFull
+	for cap := 2; cap <= 4; cap++ {
+		for _, kind := range []string{"hedge-around", "nested-full", "fn-returns-ErrFull", "hedge-around-retry"} {
+			free := 0
+			cap, kind := cap, kind
+			synctest.Test(t, func(t *testing.T) {
+				bh := bulkhead.Builder[int](uint(cap)).Build()
+				inner := bulkhead.Builder[int](1).Build()
+				inner.TryAcquirePermit() // the inner bulkhead is full for good
+				for i := 0; i < 12; i++ {
+					var pols []failsafe.Policy[int]
+					n := 0
+					fn := func() (int, error) {
+						n++
+						k := n
+						if kind == "fn-returns-ErrFull" {
+							return 0, bulkhead.ErrFull
+						}
+						if k == 1 {
+							time.Sleep(50 * time.Millisecond) // slow first attempt: the hedge starts while it holds its permit
+						} else {
+							time.Sleep(time.Duration(5*(i%4)) * time.Millisecond)
+						}
+						if i%3 == 0 {
+							return 0, errors.New("failed")
+						}
+						return k, nil
+					}
+					switch kind {
+					case "hedge-around":
+						pols = []failsafe.Policy[int]{hedgepolicy.BuilderWithDelay[int](10 * time.Millisecond).WithMaxHedges(1 + i%2).Build(), bh}
+					case "hedge-around-retry":
+						pols = []failsafe.Policy[int]{hedgepolicy.BuilderWithDelay[int](10 * time.Millisecond).WithMaxHedges(1).Build(),
+							retrypolicy.Builder[int]().WithMaxRetries(1).Build(), bh}
+					case "nested-full":
+						pols = []failsafe.Policy[int]{bh, inner}
+					default:
+						pols = []failsafe.Policy[int]{bh}
+					}
+					if i%2 == 0 {
+						failsafe.NewExecutor[int](pols...).Get(fn)
+					} else {
+						failsafe.NewExecutor[int](pols...).GetAsync(fn).Get()
+					}
+				}
+				time.Sleep(time.Hour) // every attempt, also those that lost a hedge, has finished
+				synctest.Wait()
+				for bh.TryAcquirePermit() {
+					free++
+				}
+			})
+			f := free
+			w.Add(func(id int) string { return fmt.Sprintf("mk_case %d %d 0 0%%nat 0 [] [] %d", id, cap, f) },
+				map[string]any{"probe": "12 executions through " + kind, "max_concurrency": cap, "free_permits_at_the_end": free},
+				true, fmt.Sprint("balance2", cap, kind))
+			w.Stat("balance_probe=" + kind)
+		}
+	}
+	w.Close("schedules of 8-52 atomic steps over 1-10 executions (plain, under Fallback/Timeout/Retry, async) and standalone callers sharing one bulkhead (maxConcurrency 0-4, max wait 0 / 1ns / 5ms / 1min) in a virtual-time bubble: an execution reaches the bulkhead, an admitted execution's function finishes (success or failure), an execution's context is cancelled (while waiting or while holding), the clock advances (1ns, wait-1, wait, wait+1, random), standalone TryAcquirePermit / ReleasePermit. After every step the status of every execution (idle / waiting / holding / released / refused with ErrFull / cancelled with the context error); at the end the number of free permits is probed. Balance probes: executions arriving with a cancelled context; a hedge policy around the bulkhead (several attempts of one execution hold permits at once), around retry+bulkhead, a bulkhead around a full bulkhead, a function returning ErrFull itself: afterwards every permit must be free. Non-trivial = some execution held a permit and some execution waited; distinct by (configuration, schedule).", nil)
 }
